@@ -1,5 +1,5 @@
 (* C05 correspondence: cases written by harness/cmd/c05 are evaluated here by vm_compute. *)
-From PF Require Export Base.Bytes Formats.Obj Formats.ObjText Check.Common.
+From PF Require Export Base.Bytes Formats.Obj Formats.ObjText Formats.ObjFiles Check.Common.
 Open Scope nat_scope.
 
 Definition rd := (list mesh * name)%type.
@@ -12,7 +12,12 @@ Inductive case :=
    tokens of the text with the float32 word Go parsed; [c] = the CFile case built from the harness tokenizer *)
 | CText (text : list N) (ftab : list (list N * N)) (c : case)
 (* the bytes WriteMeshes printed and the statements the harness tokenizer found in them *)
-| CTok (text : list N) (ftab : list (list N * N)) (tok_lines : list line) (c : case).
+| CTok (text : list N) (ftab : list (list N * N)) (tok_lines : list line) (c : case)
+(* stream 4 (round 4): an OBJ text and the .mtl files next to it -> obj.Load -> obj.Save (one group; the name is not
+   kept) or obj.SaveAll (distinct names, [keep] = true) into a fresh directory -> obj.Load, groups given in the order of
+   the first Load; None: the second stage is not possible (equal names cannot be keys of SaveAll's map) *)
+| CLoad (file : list line) (fs : fsys) (impl_load1 : res (list mesh)) (keep : bool)
+        (impl_load2 : option (res (list mesh))).
 
 (* Only what the property talks about is compared (a rewrite of the Go code that keeps it must stay quiet):
    a text by its validity, its direct meaning and its mtllib names - not line by line; a reader result by the
@@ -27,6 +32,9 @@ Definition lines_eqb (a b : list line) : bool :=
   Bool.eqb (valid a) (valid b) && gobs_list_eqb (file_groups a) (file_groups b)
   && name_eqb (lib_names a) (lib_names b).
 Definition read := read_gen cfg_full.      (* /repo HEAD: f82d47b, 331d6c1, ca6f159 *)
+Definition ms_eqb (a b : list mesh) : bool :=
+  gobs_list_eqb (map obs a) (map obs b) && list_eqb Bool.eqb (map wf_mesh a) (map wf_mesh b).
+Definition resaved (keep : bool) (gs : list mesh) : list mesh := if keep then gs else map unnamed gs.
 
 Definition text_lines (text : list N) (ftab : list (list N * N)) : list tline :=
   lines_of_bytes (lookup_tok ftab) atoi itoa text.
@@ -46,6 +54,18 @@ Definition corr_base (c : case) : bool :=
           (negb (forallb wf_mesh gs) || res_eqb lines_eqb (write None gs) il) &&
           match il with Ok ls => res_eqb rd_eqb (read ls) r2 | _ => true end
       | _ => true
+      end
+  | CLoad file fs r1 keep r2 =>
+      res_eqb ms_eqb (load fs file) r1 &&
+      match r1, r2 with
+      | Ok gs1, Some r2' =>
+          negb (forallb wf_mesh gs1) ||
+          match save_all (resaved keep gs1) with
+          | (Ok ls, fs2) => res_eqb ms_eqb (load fs2 ls) r2'
+          | (Declared, _) => res_eqb ms_eqb Declared r2'
+          | (Crash, _) => res_eqb ms_eqb Crash r2'
+          end
+      | _, _ => true
       end
   | _ => true
   end.
@@ -83,6 +103,26 @@ Definition prop_base (c : case) : bool :=
             && gobs_list_eqb (file_groups ls) (map obs_written gs1)
             && gobs_list_eqb (map obs gs2) (map obs_written gs1)
         | _, _, _ => false
+        end
+      else true
+  (* Load of a valid OBJ whose libraries exist: the groups are the direct meaning of the text, a face keeps its
+     material name when some library defines it (nil otherwise); saving and loading again keeps every face and the
+     written spelling of every material.  Nothing is demanded when a library is missing. *)
+  | CLoad file fs r1 keep r2 =>
+      if valid file then
+        match load_defs fs (lib_names file) with
+        | Ok defs =>
+            match r1 with
+            | Ok gs1 =>
+                gobs_list_eqb (map obs gs1) (map (gobs_resolved defs) (file_groups file))
+                && match r2 with
+                   | Some (Ok gs2) => gobs_list_eqb (map obs gs2) (map obs_written (resaved keep gs1))
+                   | Some _ => false
+                   | None => true
+                   end
+            | _ => false
+            end
+        | _ => true
         end
       else true
   | _ => true
